@@ -52,6 +52,14 @@ def _row_of_own_mailbox(model, p, term):
 
 def run(ctx):
     model = ctx.model
+    from .. import roles as _rm3
+    shared.r_nocfg(ctx, "R08.nocfg", _rm3.get(model).close_op,
+                   "under the other setting the close leaves rows, the Mailbox object or its "
+                   "subscribers behind")
+    from .. import roles as _rm2
+    shared.r_ident(ctx, "R08.ident", (_rm2.get(model).open_op,),
+                   "the mailbox that is opened / closed is not the one the client named")
+    shared.r_wire(ctx, "R08.wire")
     from .. import roles as _rolesmod
     shared.r_callers(ctx, "R08.callers", _rolesmod.get(model).close_op, ("close",),
                      "a side is marked closed (and the mailbox possibly deleted) although "
@@ -220,6 +228,13 @@ def run(ctx):
                     t[2][0] == "held":
                 held = v
         closes = [e for e, _ in all_events(p, ("call",)) if e["callee"] == R.close_op]
+        if held is None and closes:
+            nr += 1
+            ctx.ob("R08.reclose", "%s: the mailbox handle is checked before it is used" % h,
+                   False, closes[0], "the close operation is called on the connection's "
+                   "handle without testing it: when the mailbox was deleted under this "
+                   "connection (the stop callback cleared the handle) the call fails on None "
+                   "and no `closed` is sent")
         if held is False and closes:
             nr += 1
             opened = any(e["callee"] == R.open_op
